@@ -33,7 +33,7 @@ theorem C05_elem_style (cfg : PartCfg) (num : Dict Str (List NumAttr)) (c : Bool
     ∃ par, leafParsL s'.root = leafParsL s.root ++ [par] ∧ par.elem = some i ∧
       getPStyle (.elem i p t m a tx tl ks) = .ok par.style := by
   obtain ⟨par, body, bb, h1, _, _, _, h5, _, _, _, _, _, hs⟩ := walk_paragraph cfg num c s s' i p t m a tx tl ks hx hk h
-  exact ⟨par, h1, h5, hs⟩
+  exact ⟨par, h1, h5, hs.1⟩
 
 /-- the walk hands `inCell = true` to everything below a `w:tc` -/
 theorem C05_flag_set_below_cell (x : Xml) (c : Bool) (h : isCellTag x = true) : (c || isCellTag x) = true := by simp [h]
